@@ -268,6 +268,9 @@ class AbstractOfflineSpecification(AbstractSpecification):
         self.explainer = explainer
 
     def explain(self):
+        if isinstance(self.offline_interpreter, AbstractDiscreteTimeOfflineInterpreter) and \
+                hasattr(self.explainer, 'bounds_in_samples'):
+            self.explainer.bounds_in_samples = self.offline_interpreter.time_unit_transformer
         self.explainer.explain(self.ast)
 
     # forwarding to interpreter
